@@ -387,3 +387,24 @@ func writeFFT(repoRoot, srcRoot, verifRoot string, check bool) int {
 	}
 	return stale
 }
+
+// ---------------- exponentiation ----------------
+
+func writeExp(repoRoot, srcRoot, verifRoot string, pinned map[string]string, check bool) int {
+	b, err := os.ReadFile(filepath.Join(verifRoot, "contracts", "field", "exp.go.tmpl"))
+	if err != nil {
+		return 0
+	}
+	stale := 0
+	for _, p := range fieldPkgs(pinned) {
+		rel := strings.TrimPrefix(p, "./")
+		src, err := os.ReadFile(filepath.Join(srcRoot, rel, "element.go"))
+		if err != nil || !strings.Contains(string(src), "\nfunc (z *Element) Exp(x Element, k *big.Int) *Element {") {
+			continue
+		}
+		pkg := ""
+		fmt.Sscanf(after(string(src), "\npackage "), "%s", &pkg)
+		stale += installText(filepath.Join(repoRoot, rel, "zz_verif_contracts_exp.go"), strings.ReplaceAll(string(b), "PKG", pkg), check)
+	}
+	return stale
+}
